@@ -13,7 +13,7 @@
 (* copies the node dicts but not the attr_dict objects inside them.        *)
 (* Private constants (names starting with "_") are the nodes in `priv`.    *)
 (* Edge params: positive integers = positional index (1-based here),       *)
-(* strings = named.                                                        *)
+(* negative integers = named (keyword) parents.                            *)
 (***************************************************************************)
 EXTENDS Naturals, Integers, Sequences, FiniteSets
 
@@ -72,6 +72,10 @@ DoAdd(S, h, x, kind, op, parents, privs, isParam) ==
       E2 == m.edges \cup {<<parents[i], x, i>> : i \in 1..Len(parents)}
   IN [S EXCEPT !.models = Upd(S.models, h, [nodes |-> N2, edges |-> E2, cell |-> cell2, obs |-> m.obs, priv |-> m.priv \cup newPriv]),
                !.heap = heap2, !.next = a0 + 1 + Len(parents)]
+
+\* model.add_edge(parent, child, param_name): a NAMED parent (param < 0 encodes the keyword: -1 = "ka", -2 = "kb")
+DoAddEdge(S, h, p, x, param) ==
+  LET m == Model(S, h) IN SetModel(S, h, [m EXCEPT !.edges = m.edges \cup {<<p, x, param>>}], OD(S, h))
 
 \* ElfiModel.remove_node
 DoRemove(S, h, x) ==
